@@ -11,8 +11,8 @@ open GoaktVerif.Model.C45
 
 /-! ### flowActor -/
 
-theorem FlowInv.specM {st : Stage} {s : FlowSt} {ins outs : List Down} (h : FlowInv st s ins outs) :
-    SpecM (xfRun st {}) ins outs := by
+theorem FlowInv.specM {P : List Val → Prop} {st : Stage} {s : FlowSt} {ins outs : List Down} (h : FlowInv st s ins outs) :
+    SpecM P (xfRun st {}) ins outs := by
   have hp := h.prefix
   refine ⟨h.wfOut, hp, ?_, ?_, ?_⟩
   · intro _ X hX
@@ -39,7 +39,7 @@ theorem FlowInv.specM {st : Stage} {s : FlowSt} {ins outs : List Down} (h : Flow
         subst this
         rcases h3 with h3 | h3
         · exact Or.inl h3
-        · refine Or.inr fun X hX => ?_
+        · refine Or.inr fun X hX _ => ?_
           obtain ⟨rest, rfl⟩ := hX
           rw [xfRun_err_stable st {} _ rest e h3]; exact h3
       · rw [ho] at h1; simp at h1
@@ -167,8 +167,8 @@ theorem FusedInv.step_other {fs : List Stage} {s : FusedSt} {ins outs : List Dow
   | result q r => simpa [fusedStep] using h
   | flush => simpa [fusedStep] using h
 
-theorem FusedInv.specM {fs : List Stage} {s : FusedSt} {ins outs : List Down} (h : FusedInv fs s ins outs) :
-    SpecM (fusedRun fs) ins outs := by
+theorem FusedInv.specM {P : List Val → Prop} {fs : List Stage} {s : FusedSt} {ins outs : List Down} (h : FusedInv fs s ins outs) :
+    SpecM P (fusedRun fs) ins outs := by
   have hp : elemsOf outs <+: (fusedRun fs (elemsOf ins)).1 := by
     by_cases ha : s.alive = true
     · rw [(h.live ha).2.2]; exact List.prefix_refl _
@@ -195,7 +195,7 @@ theorem FusedInv.specM {fs : List Stage} {s : FusedSt} {ins outs : List Down} (h
         subst this
         rcases h3 with h3 | h3
         · exact Or.inl h3
-        · refine Or.inr fun X hX => ?_
+        · refine Or.inr fun X hX _ => ?_
           obtain ⟨rest, rfl⟩ := hX
           rw [fusedRun_err_stable fs _ rest e h3]; exact h3
 
